@@ -852,6 +852,11 @@ class Lib:
             bi = getattr(self, 'bi_' + f.name.replace('.', '_'), None)
             if bi is not None:
                 return bi(ctx, args, kwargs)
+            fb = I.models.get('libcall.fallback')
+            if fb is not None:
+                r = fb(ctx, f.name, args, kwargs)
+                if r is not NotImplemented:
+                    return r
             raise OutOfSubset("call of unmodelled library function %s" % f.name)
         if isinstance(f, ModuleVal) and f.name.startswith('class:'):
             cls = f.attrs['__class__']
